@@ -243,3 +243,13 @@ package resolve
 //@                   exists(k, 0, len(matches), matches[k] == versions[j])))
 //@     invariant forall(k, 0, len(matches), exists(j, 0, rangeidx + 1, matches[k] == versions[j]))
 //@   property C12
+
+// sortNPMVersions, the scan for the version tagged latest: allPrerelease holds
+// exactly when every version scanned so far parsed and is a prerelease; the
+// remembered index is the last version whose tags mention latest.
+//@ func sortNPMVersions
+//@   loop 1
+//@     invariant iff(allPrerelease, forall(j, 0, rangeidx + 1, vers[vs[j].VersionKey] != nil && vers[vs[j].VersionKey].IsPrerelease()))
+//@     invariant -1 <= latestIdx && latestIdx <= rangeidx
+//@     invariant imp(latestIdx >= 0, latestIsPrerelease == (vers[vs[latestIdx].VersionKey] != nil && vers[vs[latestIdx].VersionKey].IsPrerelease()))
+//@   property C12
